@@ -39,7 +39,7 @@ const MASK_NC: [u8; 4] = [255, 0, 255, 0];
 const DNS1: [u8; 4] = [1, 1, 1, 1];
 const US: i64 = 1_000_000;
 /// iterations of the "silent server until the lease is gone" macro event
-const RUN_CAP: usize = 400;
+const RUN_CAP: usize = 250;
 
 // ---------------------------------------------------------------------------------------
 // configuration
@@ -92,7 +92,7 @@ fn max_backoff_us(rc: &dhcpv4::RetryConfig) -> i64 {
 // server message alphabet
 // ---------------------------------------------------------------------------------------
 
-#[derive(Clone, Copy, PartialEq, Eq, Debug)]
+#[derive(Clone, Copy, PartialEq, Eq, Debug, Hash)]
 pub enum MT {
     Offer,
     Ack,
@@ -101,26 +101,26 @@ pub enum MT {
     Inform,
     Request,
 }
-#[derive(Clone, Copy, PartialEq, Eq, Debug)]
+#[derive(Clone, Copy, PartialEq, Eq, Debug, Hash)]
 pub enum X {
     Latest,
     Earlier,
     Foreign,
 }
-#[derive(Clone, Copy, PartialEq, Eq, Debug)]
+#[derive(Clone, Copy, PartialEq, Eq, Debug, Hash)]
 pub enum M {
     M24,
     NonContig,
     Absent,
 }
-#[derive(Clone, Copy, PartialEq, Eq, Debug)]
+#[derive(Clone, Copy, PartialEq, Eq, Debug, Hash)]
 pub enum Y {
     Uni,
     Bcast,
     Zero,
     Mcast,
 }
-#[derive(Clone, Copy, PartialEq, Eq, Debug)]
+#[derive(Clone, Copy, PartialEq, Eq, Debug, Hash)]
 pub enum T12 {
     Absent,
     Zero,
@@ -133,7 +133,7 @@ pub enum T12 {
     Tight,
 }
 
-#[derive(Clone, Copy, PartialEq, Eq)]
+#[derive(Clone, Copy, PartialEq, Eq, Hash)]
 pub struct MsgSpec {
     typ: MT,
     xid: X,
@@ -311,7 +311,7 @@ fn bursts() -> Vec<Vec<MsgSpec>> {
     ]
 }
 
-#[derive(Clone, PartialEq)]
+#[derive(Clone, PartialEq, Hash)]
 pub enum Ev {
     /// one server frame, then `Interface::poll`
     Msg(MsgSpec),
@@ -509,7 +509,9 @@ const LABEL_NAMES: [(&str, u32); 11] = [
     ("silent_run_checked_renew_and_rebind_before_expiry", L_RUN_FULL_LEASE),
 ];
 
-static LABELS: Mutex<Option<HashMap<u128, u32>>> = Mutex::new(None);
+/// side channel for vacuity statistics (never for verdicts): per distinct state fingerprint and
+/// per distinct explored history (hash of the event names) the OR of the outcome labels
+static LABELS: Mutex<Option<(HashMap<u128, u32>, HashMap<u64, u32>)>> = Mutex::new(None);
 static VERBOSE: AtomicBool = AtomicBool::new(false);
 
 // ---------------------------------------------------------------------------------------
@@ -526,7 +528,9 @@ pub struct DhcpH {
     now: i64,
     m: Model,
     pending: Vec<Viol>,
-    msgs: std::sync::Arc<(Vec<MsgSpec>, Vec<MsgSpec>)>,
+    /// Interface::poll_at as of the end of the last poll
+    pa: Option<i64>,
+    hist_hash: u64,
     pub log: Vec<String>,
 }
 
@@ -744,9 +748,15 @@ impl DhcpH {
         ctx.delivered.push((*s, failed));
     }
 
+    /// Signature suffix only (never part of a verdict): does the socket-set image show the DHCP
+    /// socket silenced by the interface's neighbour-discovery back-off (`socket_meta.rs`,
+    /// `NeighborState::Waiting`) after a unicast renewal REQUEST could not leave?
+    fn silenced(&self) -> bool {
+        format!("{:?}", self.sockets).contains("Waiting")
+    }
     fn cause(&self) -> &'static str {
-        if self.m.arp_pending.is_some() {
-            "arp-for-server-unanswered"
+        if self.silenced() {
+            "socket-silenced-after-unsendable-renew"
         } else {
             "plain"
         }
@@ -804,7 +814,15 @@ impl DhcpH {
                 }
                 if renewal {
                     let tainted = self.m.tainted;
-                    let cause = self.cause();
+                    let past = self.m.lease.as_ref().and_then(|l| l.e_stmt).is_some_and(|e| t >= e);
+                    let cause = if past { self.cause() } else { "" };
+                    // LENIENT: a renewal attempt that cannot leave the interface (no route because
+                    // the user could not yet apply the address in the poll that delivered the ACK,
+                    // or neighbour discovery rate-limited) puts no frame on the wire; the `Waiting`
+                    // image of the socket meta (it persists until the neighbour is discovered) is
+                    // taken as evidence that such an attempt was made.  This can only suppress
+                    // order/attempt verdicts, never create one.
+                    let invisible_attempt = bc && self.m.lease.as_ref().is_some_and(|l| !l.renew_seen) && self.silenced();
                     if let Some(l) = self.m.lease.as_mut() {
                         if let Some(e) = l.e_stmt {
                             if t >= e && !tainted {
@@ -815,6 +833,9 @@ impl DhcpH {
                             }
                         }
                         if bc {
+                            if invisible_attempt {
+                                l.renew_seen = true;
+                            }
                             if !l.renew_seen {
                                 if l.t2only {
                                     self.m.labels |= L_T2ONLY_NO_RENEW;
@@ -874,9 +895,11 @@ impl DhcpH {
                             // silent server, a clock that followed poll_at, a granted (and capped)
                             // lease of at least 10 minutes (LENIENT: shorter leases interact with
                             // the documented minimum retry interval).
-                            if l.silent && l.faithful && l.order_demanded && !self.m.tainted && l.secs_capped.is_some_and(|s| s >= 600) {
+                            // "silent" includes this very poll: a Deconfigured in a poll that
+                            // delivered a server message (NAK, bursts) is not an expiry.
+                            if !ctx.any_dhcp && l.silent && l.faithful && l.order_demanded && !self.m.tainted && l.secs_capped.is_some_and(|s| s >= 600) {
                                 self.m.labels |= L_RUN_FULL_LEASE;
-                                if !l.renew_seen {
+                                if !l.renew_seen && !self.silenced() {
                                     out.push(Viol::new("C18/renew/no-renew-attempt-before-expiry", format!("lease of {:?} s ended at {} without any renewal attempt although the server was silent and the client was polled at every poll_at", l.secs_capped, tsec(self.now))));
                                 }
                                 if !l.rebind_seen {
@@ -938,6 +961,15 @@ impl DhcpH {
                 }
             }
         }
+        // LENIENT: while an ARP request for the server is unanswered the interface holds the
+        // socket back (socket_meta.rs) and a unicast renewal cannot be demanded; neighbour
+        // discovery in progress counts as the renewal attempt of the current lease, also when
+        // the request predates the ACK that started this lease.
+        if self.m.arp_pending.is_some() {
+            if let Some(l) = self.m.lease.as_mut() {
+                l.renew_seen = true;
+            }
+        }
         // clause 2a: not reporting past expiry
         if let (Some(rep), Some(l)) = (self.m.reported, self.m.lease.as_ref()) {
             if let Some(e) = l.e_stmt {
@@ -962,6 +994,7 @@ impl DhcpH {
 
     fn check_poll_at(&mut self, out: &mut Vec<Viol>) {
         let pa = self.poll_at();
+        self.pa = pa;
         match self.m.reported {
             Some(_) => {
                 if self.m.tainted {
@@ -1036,3 +1069,444 @@ impl DhcpH {
     }
 }
 
+
+const EVENT_SCOPED: u32 = L_EXPIRED | L_NAK_DECONF | L_LEASE_RENEWED | L_RUN_CAPPED | L_T2ONLY_NO_RENEW | L_RUN_FULL_LEASE;
+
+impl Harness for DhcpH {
+    type Cfg = Cfg;
+    type Ev = Ev;
+
+    fn new(cfg: &Cfg) -> Self {
+        let mut dev = SimDevice::new(Medium::Ethernet, 1514);
+        let mut config = Config::new(HardwareAddress::Ethernet(EthernetAddress(CLIENT_MAC)));
+        config.random_seed = 0x5eed_0c18;
+        let iface = Interface::new(config, &mut dev, Instant::from_micros(0));
+        let mut sock = dhcpv4::Socket::new();
+        let rc = retry_config(cfg.retry_short);
+        sock.set_retry_config(rc);
+        sock.set_max_lease_duration(cfg.max_lease.map(|s| Duration::from_secs(s as u64)));
+        sock.set_ignore_naks(cfg.ignore_naks);
+        let mut sockets = SocketSet::new(vec![]);
+        let handle = sockets.add(sock);
+        let mut h = DhcpH {
+            cfg: cfg.clone(),
+            backoff: max_backoff_us(&rc),
+            dev,
+            iface,
+            sockets,
+            handle,
+            now: 0,
+            m: Model {
+                latest_xid: None,
+                latest_type: 0,
+                earlier_xid: None,
+                last_req_xid: None,
+                xids: vec![],
+                reported: None,
+                tainted: false,
+                lease: None,
+                unconf_ref: 0,
+                nosol_pollats: 0,
+                arp_pending: None,
+                labels: 0,
+            },
+            pending: vec![],
+            pa: None,
+            hist_hash: 0x9e37_79b9_7f4a_7c15,
+            log: vec![],
+        };
+        // initial state = after the first poll at t=0 (the first DISCOVER is on the wire)
+        let mut v = vec![];
+        h.poll_step(&PollCtx::default(), &mut v);
+        h.set_dynamic_labels();
+        h.pending = v;
+        h
+    }
+
+    fn enabled(&self) -> Vec<(Ev, u32)> {
+        // after a clause-1 violation the lease clock no longer describes what the client holds
+        // and every later verdict is suppressed: nothing left to check on this branch
+        if self.m.tainted {
+            return vec![];
+        }
+        let mut v: Vec<(Ev, u32)> = alphabet(self.cfg.alpha, self.m.earlier_xid.is_some()).into_iter().map(|m| (Ev::Msg(m), 1)).collect();
+        for b in bursts() {
+            v.push((Ev::Burst(b), 1));
+        }
+        if self.m.arp_pending.is_some() {
+            v.push((Ev::ArpReply, 1));
+        }
+        if self.pa.is_some() {
+            v.push((Ev::ToPollAt, 0));
+        }
+        v.push((Ev::Plus1s, 1));
+        if self.m.reported.is_some() {
+            if let Some(l) = &self.m.lease {
+                if let Some(e) = l.e_stmt {
+                    for d in [-1, 0, 1] {
+                        if e + d > self.now {
+                            v.push((Ev::ToExpiry(d), 1));
+                        }
+                    }
+                }
+                if let Some(e) = l.e_capped {
+                    if l.e_capped != l.e_stmt {
+                        for d in [-1, 0, 1] {
+                            if e + d > self.now {
+                                v.push((Ev::ToCappedExpiry(d), 1));
+                            }
+                        }
+                    }
+                }
+            }
+            v.push((Ev::RunSilent(true), 1));
+            v.push((Ev::RunSilent(false), 1));
+        }
+        v
+    }
+
+    fn apply(&mut self, ev: &Ev, out: &mut Vec<Viol>) {
+        out.append(&mut self.pending);
+        self.m.labels &= !EVENT_SCOPED;
+        self.hist_hash = {
+            use std::hash::{Hash, Hasher};
+            let mut hh = std::collections::hash_map::DefaultHasher::new();
+            self.hist_hash.hash(&mut hh);
+            ev.hash(&mut hh);
+            hh.finish()
+        };
+        if VERBOSE.load(Ordering::Relaxed) {
+            let l = format!("--- event: {:?}", ev);
+            self.log.push(l);
+        }
+        match ev {
+            Ev::Msg(s) => {
+                let f = self.build_frame(s);
+                let mut ctx = PollCtx::default();
+                self.model_deliver(s, &mut ctx);
+                self.dev.rx.push_back(f);
+                self.poll_step(&ctx, out);
+            }
+            Ev::Burst(v) => {
+                let mut ctx = PollCtx::default();
+                for s in v {
+                    let f = self.build_frame(s);
+                    self.model_deliver(s, &mut ctx);
+                    self.dev.rx.push_back(f);
+                }
+                self.poll_step(&ctx, out);
+            }
+            Ev::ArpReply => {
+                self.deliver_arp_reply();
+                self.poll_step(&PollCtx::default(), out);
+            }
+            Ev::ToPollAt => {
+                let was_unconf = self.m.reported.is_none();
+                if let Some(p) = self.pa {
+                    self.advance_to(p);
+                }
+                let sol = self.poll_step(&PollCtx::default(), out);
+                if was_unconf && self.m.reported.is_none() && !sol {
+                    self.m.nosol_pollats += 1;
+                    if self.m.nosol_pollats >= 3 {
+                        out.push(Viol::new("C18/solicit/stuck", format!("unconfigured client polled 3 times in a row exactly at Interface::poll_at (now {}) without sending DISCOVER or REQUEST", tsec(self.now))));
+                        self.m.nosol_pollats = 3;
+                    }
+                }
+            }
+            Ev::Plus1s => {
+                self.advance_to(self.now + US);
+                self.poll_step(&PollCtx::default(), out);
+            }
+            Ev::ToExpiry(d) => {
+                if let Some(e) = self.m.lease.as_ref().and_then(|l| l.e_stmt) {
+                    self.advance_to(e + d);
+                }
+                self.poll_step(&PollCtx::default(), out);
+            }
+            Ev::ToCappedExpiry(d) => {
+                if let Some(e) = self.m.lease.as_ref().and_then(|l| l.e_capped) {
+                    self.advance_to(e + d);
+                }
+                self.poll_step(&PollCtx::default(), out);
+            }
+            Ev::RunSilent(arp) => {
+                let mut n = 0;
+                while self.m.reported.is_some() {
+                    if n >= RUN_CAP {
+                        self.m.labels |= L_RUN_CAPPED;
+                        break;
+                    }
+                    n += 1;
+                    let Some(p) = self.pa else { break };
+                    self.advance_to(p);
+                    self.poll_step(&PollCtx::default(), out);
+                    if *arp && self.m.arp_pending.is_some() && self.m.reported.is_some() {
+                        self.deliver_arp_reply();
+                        self.poll_step(&PollCtx::default(), out);
+                    }
+                }
+            }
+        }
+        self.set_dynamic_labels();
+    }
+
+    fn fingerprint(&self) -> u128 {
+        let s = self.fp_string();
+        let fp = fp128(&s);
+        if let Some(m) = LABELS.lock().unwrap().as_mut() {
+            *m.0.entry(fp).or_insert(0) |= self.m.labels;
+            *m.1.entry(self.hist_hash).or_insert(0) |= self.m.labels;
+        }
+        fp
+    }
+}
+
+/// Replace every `Instant { micros: N }` by its distance to `now`.  Everything in the
+/// socket / neighbour cache / socket meta compares instants with "now" only through
+/// `<`, `<=`, `>=` (dhcpv4.rs dispatch/poll_at, neighbor.rs lookup, socket_meta.rs), and
+/// the two subtractions in dhcpv4::dispatch are only evaluated for instants in the future,
+/// so all instants <= now are equivalent and the behaviour is invariant under a common
+/// shift of the clock.
+fn norm_instants(s: &str, now: i64, out: &mut String) {
+    const K: &str = "Instant { micros: ";
+    let mut rest = s;
+    while let Some(i) = rest.find(K) {
+        out.push_str(&rest[..i]);
+        let after = &rest[i + K.len()..];
+        let end = after.find(' ').unwrap_or(after.len());
+        let n: i64 = after[..end].parse().unwrap_or(0);
+        let rel = n.saturating_sub(now);
+        if rel <= 0 {
+            out.push_str("T<=now");
+        } else {
+            let _ = write!(out, "T+{}", rel);
+        }
+        rest = &after[end..];
+        if let Some(r) = rest.strip_prefix(" }") {
+            rest = r;
+        }
+    }
+    out.push_str(rest);
+}
+/// cut `key<digits>` down to `key#`
+fn strip_number(s: &str, key: &str) -> String {
+    match s.find(key) {
+        None => s.to_string(),
+        Some(i) => {
+            let after = &s[i + key.len()..];
+            let end = after.find(|c: char| !c.is_ascii_digit()).unwrap_or(after.len());
+            format!("{}{}#{}", &s[..i], key, &after[end..])
+        }
+    }
+}
+fn strip_between(s: &str, from: &str, to: &str) -> String {
+    match (s.find(from), s.find(to)) {
+        (Some(a), Some(b)) if a < b => format!("{}{}", &s[..a], &s[b..]),
+        _ => s.to_string(),
+    }
+}
+
+impl DhcpH {
+    fn fp_string(&self) -> String {
+        let mut out = String::with_capacity(2048);
+        // The numeric xid only ever takes part in equality tests against xids of incoming
+        // messages, which the explorer chooses by RELATION to the client's history (latest /
+        // earlier / foreign); the relations are part of the model image below.  Hence the xid
+        // value, the PRNG state it is drawn from and the IPv4 ident counter (only copied into
+        // emitted headers) are stripped.
+        let socks = strip_number(&format!("{:?}", self.sockets), "transaction_id: ");
+        norm_instants(&socks, self.now, &mut out);
+        let dig = self.iface.verif_digest();
+        let dig = strip_between(&dig, " ipv4_id=", " tag=");
+        let dig = strip_between(&dig, " rand=", " slaac_enabled=");
+        out.push('|');
+        norm_instants(&dig, self.now, &mut out);
+        let m = &self.m;
+        let rel = |t: i64| (t - self.now).max(-1);
+        let _ = write!(
+            out,
+            "|M earlier={} req={} req_is_latest={} req_is_earlier={} lt={} rep={:?} taint={} unconf_age={} nosol={} arp={:?}",
+            m.earlier_xid.is_some(),
+            m.last_req_xid.is_some(),
+            m.last_req_xid.is_some() && m.last_req_xid == m.latest_xid,
+            m.last_req_xid.is_some() && m.last_req_xid == m.earlier_xid,
+            m.latest_type,
+            m.reported,
+            m.tainted,
+            if m.reported.is_none() { self.now - m.unconf_ref } else { 0 },
+            m.nosol_pollats,
+            m.arp_pending,
+        );
+        if let Some(l) = &m.lease {
+            let _ = write!(
+                out,
+                " L e={:?} ec={:?} big={} ord={} t2o={} rn={} rb={} f={} s={}",
+                l.e_stmt.map(rel),
+                l.e_capped.map(rel),
+                l.secs_capped.is_some_and(|s| s >= 600),
+                l.order_demanded,
+                l.t2only,
+                l.renew_seen,
+                l.rebind_seen,
+                l.faithful,
+                l.silent
+            );
+        }
+        out
+    }
+}
+
+// ---------------------------------------------------------------------------------------
+// scripted narration (evidence samples, replay)
+// ---------------------------------------------------------------------------------------
+
+/// Replay a list of event names (their `{:?}` image) and return the wire/event log.
+fn narrate_script(cfg: &Cfg, script: &[&str]) -> Result<(Vec<String>, Vec<Viol>), String> {
+    VERBOSE.store(true, Ordering::SeqCst);
+    let mut h = DhcpH::new(cfg);
+    let mut viols = vec![];
+    for name in script {
+        let en = h.enabled();
+        let Some((ev, _)) = en.into_iter().find(|(e, _)| format!("{:?}", e) == *name) else {
+            VERBOSE.store(false, Ordering::SeqCst);
+            return Err(format!("script event {:?} not enabled", name));
+        };
+        h.apply(&ev, &mut viols);
+    }
+    VERBOSE.store(false, Ordering::SeqCst);
+    Ok((std::mem::take(&mut h.log), viols))
+}
+
+fn narrate_choices(cfg: &Cfg, choices: &[u16]) -> (Vec<String>, Vec<Viol>) {
+    VERBOSE.store(true, Ordering::SeqCst);
+    let r = replay_choices::<DhcpH>(cfg, choices, false);
+    VERBOSE.store(false, Ordering::SeqCst);
+    match r {
+        Ok(mut r) => (r.h.as_mut().map(|h| std::mem::take(&mut h.log)).unwrap_or_default(), r.viols),
+        Err(e) => (vec![format!("machinery: {}", e)], vec![]),
+    }
+}
+
+// ---------------------------------------------------------------------------------------
+// entry points
+// ---------------------------------------------------------------------------------------
+
+pub fn run(tier: Tier) -> i32 {
+    let mut rep = Report::new("C18", tier);
+    rep.assumptions.push("stimulus frames are built with smoltcp::wire emitters (trusted for building, not as oracle); what the client sends is read with an independent parser (RFC 826/951/2131 offsets)".into());
+    rep.assumptions.push("one dhcpv4::Socket on one Ethernet interface; the harness applies Configured/Deconfigured to the interface exactly like examples/dhcp_client.rs; the device never refuses transmit".into());
+    rep.assumptions.push("server messages deviate from a well-formed base message in ONE dimension (all values) or in the pair lease x T1/T2 (all values) / unicast x tiny lease; yiaddr values: 192.168.1.42, 255.255.255.255, 0.0.0.0, 224.0.0.1 (subnet-directed broadcast is read as 'unicast', lenient)".into());
+    rep.assumptions.push("lenient readings: expiry = arrival + lease OPTION (max_lease_duration only aims time events); ACK without lease option grants nothing checkable; renew-before-rebind only demanded when the ACK carried both or none of T1/T2; 'renew and rebind attempted before expiry' only for silent server, clock following poll_at, lease >= 600 s; an ARP request for the server counts as renewal attempt; back-off bound = max(discover_timeout, initial_request_timeout << ((retries-1)/2)) + 1 s + 1 ms".into());
+    rep.assumptions.push("state merging: instants relative to now (all <= now equivalent), xid value / PRNG / IPv4 ident stripped (only relations between xids matter, kept in the model image)".into());
+
+    // quick: d<=6 on the two extreme configurations, d<=5 on the others; thorough: the full
+    // 2x2x2 configuration cube (d<=9, d<=8 with ignore_naks) plus the singles-only alphabet at d<=10
+    let mut cfgs: Vec<(Cfg, usize)> = vec![];
+    if tier == Tier::Quick {
+        cfgs.push((Cfg { retry_short: false, max_lease: None, ignore_naks: false, alpha: 0 }, 6));
+        cfgs.push((Cfg { retry_short: true, max_lease: Some(30), ignore_naks: false, alpha: 0 }, 6));
+        cfgs.push((Cfg { retry_short: false, max_lease: Some(30), ignore_naks: false, alpha: 0 }, 5));
+        cfgs.push((Cfg { retry_short: true, max_lease: None, ignore_naks: false, alpha: 0 }, 5));
+        cfgs.push((Cfg { retry_short: false, max_lease: None, ignore_naks: true, alpha: 0 }, 5));
+    } else {
+        for ignore_naks in [false, true] {
+            for retry_short in [false, true] {
+                for max_lease in [None, Some(30)] {
+                    cfgs.push((Cfg { retry_short, max_lease, ignore_naks, alpha: 0 }, if ignore_naks { 8 } else { 9 }));
+                }
+            }
+        }
+        cfgs.push((Cfg { retry_short: false, max_lease: None, ignore_naks: false, alpha: 1 }, 10));
+        cfgs.push((Cfg { retry_short: true, max_lease: Some(30), ignore_naks: false, alpha: 1 }, 10));
+    }
+    let lim = Limits::default();
+    let mut per_cfg = vec![];
+    let mut alpha_sizes = serde_json::Map::new();
+    for (cfg, d) in &cfgs {
+        *LABELS.lock().unwrap() = Some((HashMap::new(), HashMap::new()));
+        let mut samples = vec![];
+        let name = format!("{:?} depth<={}", cfg, d);
+        match bfs::<DhcpH>("dhcp", cfg, *d, &lim, &mut rep.found, &mut samples) {
+            Ok(st) => {
+                rep.absorb(&name, &st);
+                let (smap, hmap) = LABELS.lock().unwrap().take().unwrap_or_default();
+                let mut counts = serde_json::Map::new();
+                let mut hcounts = serde_json::Map::new();
+                for (n, bit) in LABEL_NAMES {
+                    counts.insert(n.to_string(), json!(smap.values().filter(|v| *v & bit != 0).count()));
+                    hcounts.insert(n.to_string(), json!(hmap.values().filter(|v| *v & bit != 0).count()));
+                }
+                counts.insert("unconfigured".into(), json!(smap.values().filter(|v| *v & L_CONFIGURED == 0).count()));
+                hcounts.insert("unconfigured".into(), json!(hmap.values().filter(|v| *v & L_CONFIGURED == 0).count()));
+                hcounts.insert("total_histories".into(), json!(hmap.len()));
+                per_cfg.push(json!({"config": format!("{:?}", cfg), "depth": d, "states": st.states, "transitions": st.transitions,
+                    "per_level": st.per_level, "cap": st.cap_note, "distinct_states_by_outcome": counts,
+                    "explored_histories_by_outcome": hcounts}));
+                if per_cfg.len() == 1 {
+                    rep.samples.extend(samples);
+                }
+            }
+            Err(e) => rep.machinery_errors.push(e),
+        }
+        let h = DhcpH::new(cfg);
+        alpha_sizes.insert(format!("alpha{}", cfg.alpha), json!({
+            "server_messages": alphabet(cfg.alpha, true).len(), "bursts": bursts().len(),
+            "max_events_enabled_initially": h.enabled().len()}));
+    }
+    *LABELS.lock().unwrap() = None;
+    rep.cov("per_configuration", json!(per_cfg));
+    rep.cov("alphabet", json!(alpha_sizes));
+    rep.cov("rule", json!("BFS over choice histories replayed on a fresh real Interface+dhcpv4::Socket; from every distinct state every enabled event: each server message of the alphabet (built from the latest client message on the wire; types OFFER/ACK/NAK/DISCOVER/INFORM/REQUEST; xid latest/earlier/foreign; chaddr own/foreign; server-id present/absent; mask /24, 255.0.255.0, absent; yiaddr unicast/broadcast/0/multicast; lease absent,0,1,2,60,600,2^32-1; T1/T2 absent,0/0,equal,inverted,>lease,T1 only,T2 only,valid,tight; router/DNS present/absent; broadcast/unicast delivery), 4 two-frame bursts in ONE poll, ARP reply, clock to poll_at, +1 s, expiry-1us/expiry/expiry+1us (statement expiry and max_lease-capped expiry), silent-server run following poll_at to the end of the lease (ARP answered / not). One Interface::poll + drain of Socket::poll() per event; all oracles after every poll."));
+
+    rep.cov("caps", json!(format!("the silent-server macro event stops after {} polls (enough for a complete 600 s lease with the ARP request repeated every second); runs that hit the cap are counted as run_silent_capped (leases of 2^32-1 s) and make no attempt verdict; no other cap", RUN_CAP)));
+    // narrated samples: a full lease life cycle under each retry configuration
+    for (cfg, script) in [
+        (Cfg { retry_short: false, max_lease: None, ignore_naks: false, alpha: 0 }, vec!["deliver Offer{}", "deliver Ack{lease=1}", "advance-to-poll_at", "advance-to-expiry+0us", "advance-to-poll_at"]),
+        (Cfg { retry_short: false, max_lease: None, ignore_naks: false, alpha: 0 }, vec!["deliver Offer{}", "deliver Ack{}", "run-silent-server(arp-answered=true)"]),
+        (Cfg { retry_short: true, max_lease: Some(30), ignore_naks: false, alpha: 0 }, vec!["deliver Offer{}", "deliver Ack{}", "run-silent-server(arp-answered=false)", "advance-to-poll_at"]),
+        (Cfg { retry_short: false, max_lease: None, ignore_naks: false, alpha: 0 }, vec!["advance-to-poll_at", "deliver Offer{xid=Earlier}", "deliver Offer{}", "deliver Ack{lease=60 T1/T2=Valid(Some(15),Some(30))}", "advance-to-poll_at", "arp-reply", "deliver Ack{lease=2}", "advance-to-expiry-1us", "advance-to-expiry+0us"]),
+    ] {
+        match narrate_script(&cfg, &script) {
+            Ok((log, v)) => rep.samples.push(json!({"config": format!("{:?}", cfg), "script": script, "wire_and_event_log": log,
+                "violations": v.iter().map(|x| x.sig.clone()).collect::<Vec<_>>()})),
+            // a script is only an illustration; if the tree changed so that one of its events is
+            // no longer enabled, say so instead of failing the check
+            Err(e) => rep.samples.push(json!({"config": format!("{:?}", cfg), "script": script, "not_applicable": e})),
+        }
+    }
+    // attach a narrated log to every finding
+    for f in rep.found.iter_mut() {
+        let cfg = parse_cfg(f.replay["config"].as_str().unwrap_or(""));
+        let ch: Vec<u16> = f.replay["choices"].as_array().map(|a| a.iter().map(|x| x.as_u64().unwrap_or(0) as u16).collect()).unwrap_or_default();
+        let (log, _) = narrate_choices(&cfg, &ch);
+        f.replay["wire_and_event_log"] = json!(log);
+    }
+    rep.finish()
+}
+
+pub fn replay(art: &serde_json::Value) -> i32 {
+    let cfg = parse_cfg(art["replay"]["config"].as_str().unwrap_or(""));
+    let want = art["signature"].as_str().unwrap_or("").to_string();
+    let choices: Vec<u16> = art["replay"]["choices"].as_array().map(|a| a.iter().map(|x| x.as_u64().unwrap_or(0) as u16).collect()).unwrap_or_default();
+    println!("config: {:?}", cfg);
+    let (log, viols) = narrate_choices(&cfg, &choices);
+    for l in &log {
+        println!("{}", l);
+    }
+    if viols.is_empty() {
+        println!("no violation on replay");
+        return 0;
+    }
+    let mut hit = false;
+    for v in &viols {
+        println!("violation: {} :: {}", v.sig, v.detail);
+        hit |= want.is_empty() || v.sig == want;
+    }
+    if hit {
+        1
+    } else {
+        println!("(the recorded signature {} did not reoccur)", want);
+        0
+    }
+}
